@@ -43,14 +43,17 @@ fn do_formatting(ctx: &mut LspContext, uri: &Url) -> Option<Vec<TextEdit>> {
             if let Some(old_file) = tree.try_get_file(&path) {
                 let old_text = old_file.file.source();
                 let new_text = format(path, tree.clone(), FormattingOptions::default());
-                if old_text.contains('\r') {
+                if old_text.contains('\r') || !old_text.is_ascii() || !new_text.is_ascii() {
                     // The formatted text has plain newlines. A carriage return is part of the line ending for the client,
                     // not a column of the line, so it can't be edited away piece by piece: replace the whole text.
+                    // The same when there is anything but ASCII in the text: the library that finds the differences
+                    // works on bytes and may cut a character in two, giving edits that are wrong, or a panic.
                     if old_text == new_text {
                         vec![]
                     } else {
+                        // (for the client a line ends at '\n', at '\r\n' and at a '\r' on its own)
                         let mut end = RangeKeeper::new();
-                        end.push(&old_text.replace('\r', ""));
+                        end.push(&old_text.replace("\r\n", "\n").replace('\r', "\n"));
                         vec![TextEdit {
                             range: rng(0, 0, end.line, end.character),
                             new_text,
